@@ -47,6 +47,15 @@ def case(draw, tier):
             nrows = draw(st.integers(2, min(4, len(flat))))
             cuts = sorted(draw(st.lists(st.integers(1, len(flat) - 1), min_size=nrows - 1, max_size=nrows - 1, unique=True)))
             parts = [b - a for a, b in zip([0] + cuts, cuts + [len(flat)])]
+            if draw(st.integers(0, 2)) == 0 and len(flat) >= 6:
+                # unequal rows whose total still equals rows x first-row length (e.g. 2, 1, 3)
+                f_ = draw(st.integers(2, max(2, len(flat) // 3)))
+                n_ = len(flat) // f_
+                if n_ >= 3 and n_ * f_ == len(flat):
+                    parts = [f_] * n_
+                    i_ = draw(st.integers(1, n_ - 2))
+                    parts[i_] -= 1
+                    parts[i_ + 1] += 1
             if len(set(parts)) > 1:
                 variant = {"kind": "ragged", "item": idx, "parts": parts, "keep_shape": draw(st.booleans())}
         if variant is None:
